@@ -68,9 +68,9 @@ int main(int argc, char **argv)
       verif_replay_n = 64 + rnd() % 64;
       for (unsigned i = 0; i < verif_replay_n; i++) verif_replay_vals[i] = pick();
       verif_replay_i = 0; verif_failed = 0; verif_digest = 1469598103934665603ULL; verif_first_fail[0] = 0;
-      if (setjmp(verif_jb)) { printf("%ld rejected\n", k); continue; }
+      if (setjmp(verif_jb)) { printf("\n@@ %ld rejected\n", k); continue; }
       VERIF_ENTRY();
-      printf("%ld %016llx %d %s\n", k, verif_digest, verif_failed, verif_failed ? verif_first_fail : "-");
+      printf("\n@@ %ld %016llx %d %s\n", k, verif_digest, verif_failed, verif_failed ? verif_first_fail : "-");
     }
     return 0;
   }
